@@ -310,3 +310,64 @@ def _check_ownership(ck, fn, rule):
 
 def _is_recursive_or_field_call(f, fn):
     return False
+
+
+def check_instance_state(ck, cls, request_names, rule, typestate=('err', 'port')):
+    """R-STATE: apart from the connection typestate (port, err) a request method must not consult
+    an instance field that a request method writes: what it transmits would then depend on the
+    history of earlier calls, not on its arguments and the replies of this call.  Decided on the
+    source: self-field stores / loads of every request method and of the private helpers it
+    reaches through self-calls."""
+    getattr(ck, 'structural_rules', set()).add(rule)
+    family = cls.mro()
+    method_names = {n for c in family for n in c.methods}
+
+    def reach(fn):
+        seen, todo = {fn.qualname: fn}, [fn]
+        while todo:
+            f = todo.pop()
+            for n in ast.walk(f.node):
+                if isinstance(n, ast.Call) and isinstance(n.func, ast.Attribute) and \
+                        isinstance(n.func.value, ast.Name) and n.func.value.id == 'self':
+                    m = cls.lookup(n.func.attr)
+                    if m is not None and m.qualname not in seen and (
+                            m.name.startswith('_') or m.name == 'record_error'):
+                        seen[m.qualname] = m
+                        todo.append(m)
+        return list(seen.values())
+
+    stores, loads = {}, {}
+    for name in request_names:
+        fn = cls.lookup(name)
+        if fn is None:
+            continue
+        for f in reach(fn):
+            for n in ast.walk(f.node):
+                if isinstance(n, ast.Attribute) and isinstance(n.value, ast.Name) and \
+                        n.value.id == 'self' and n.attr not in method_names:
+                    if isinstance(n.ctx, ast.Store):
+                        stores.setdefault(n.attr, []).append((name, f, n))
+                    elif isinstance(n.ctx, ast.Load):
+                        loads.setdefault(n.attr, []).append((name, f, n))
+                elif isinstance(n, ast.Call) and isinstance(n.func, ast.Name) and \
+                        n.func.id in ('getattr', 'setattr', 'hasattr') and len(n.args) >= 2 and \
+                        isinstance(n.args[0], ast.Name) and n.args[0].id == 'self' and \
+                        isinstance(n.args[1], ast.Constant) and isinstance(n.args[1].value, str) \
+                        and n.args[1].value not in method_names:
+                    tbl = stores if n.func.id == 'setattr' else loads
+                    tbl.setdefault(n.args[1].value, []).append((name, f, n))
+    n = 0
+    for attr in sorted(set(stores) & set(loads)):
+        if attr in typestate:
+            continue
+        n += 1
+        w, r = stores[attr][0], loads[attr][0]
+        ck.ob(rule, '%s.%s' % (cls.name, attr), False,
+              'request method %s stores self.%s (%s) and request method %s reads it (%s): what a '
+              'request transmits then depends on earlier calls on the same object, not only on '
+              'its arguments and the replies of this call (only the connection typestate %s is '
+              'shared state)' % (w[0], attr, w[1].loc(w[2]), r[0], r[1].loc(r[2]),
+                                 '/'.join(typestate)), w[1].loc(w[2]),
+              key='%s::request-state:%s' % (cls.name, attr))
+    ck.ob(rule, '%s: fields shared between request methods' % cls.name, True)
+    return n
